@@ -30,7 +30,7 @@ CFG = {
              "then fair passes (every ordered pair x every group/shard, tape-chosen order, build-tree task run on both sides before each exchange) until one pass changes nothing "
              "(bound 3 + keys x replicas passes), the convergence check, and one more tape-chosen exchange. "
              "Non-trivial = at least one write (lww-map) / replicas actually diverged (repair-converge, gossip-exchange); distinct = distinct canonical event-log digests"),
-    "expected_probes": ["fault.replica_missed_update", "fault.replica_missed_delete", "fault.replica_missed_read_repair",
+    "expected_probes": ["reach.stale_replica_left_unrepaired", "fault.replica_missed_update", "fault.replica_missed_delete", "fault.replica_missed_read_repair",
                         "reach.merge_kept_old_tag", "reach.replace_dropped_tag", "reach.create_revision_checked_across_update", "reach.read_repair_delivered",
                         "reach.delete_missed_by_replica", "reach.delete_retried_after_error", "reach.key_with_100_revisions",
                         "reach.replicas_diverged", "reach.tombstone_vs_older_live", "reach.equal_revision_exchange", "reach.equal_revision_tombstone_vs_live",
